@@ -86,6 +86,16 @@ def install_recorders():
             payload['sender_db'] = getattr(sender, 'database_name', None)
             TRACE.append(['signal', name, payload])
         return receiver
+    # the order computed by the dependency graph (C09 observes it directly)
+    from django_evolution.utils import graph as G
+    orig_get_ordered = G.DependencyGraph.get_ordered
+
+    def get_ordered(self):
+        result = orig_get_ordered(self)
+        if FAULT.get('capture_graph'):
+            TRACE.append(['graph', [n.key for n in result]])
+        return result
+    G.DependencyGraph.get_ordered = get_ordered
     keep = []
     for name in ('evolving', 'evolved', 'evolving_failed', 'applying_evolution',
                  'applied_evolution', 'applying_migration', 'applied_migration',
@@ -133,6 +143,7 @@ def run_step(step):
     res = {'op': op, 'ok': True}
     start = len(TRACE)
     FAULT['at'] = step.get('fault_at')
+    FAULT['capture_graph'] = bool(step.get('capture_graph'))
     FAULT['count'] = 0
     FAULT['active'] = True
     out, err = io.StringIO(), io.StringIO()
